@@ -3,6 +3,7 @@ package fuse
 import (
 	"context"
 	"fmt"
+	"io"
 	"math"
 	"os"
 	"sync"
@@ -491,6 +492,10 @@ func (fs *fsMutable) ReadFile(
 
 	fs.backingFiles[op.Inode] = &file
 	op.BytesRead, err = file.ReadAt(op.Dst, op.Offset)
+	if err == io.EOF {
+		// a read reaching the end of the file is a short read, not an error
+		err = nil
+	}
 	if err != nil {
 		return jfuse.EIO
 	}
